@@ -12,7 +12,9 @@ import (
 // C01 — IsSQLi is total.
 
 func evalC01Public(w *fw.W, s, _ string) {
+	arm(s)
 	b, fp := lib.IsSQLi(s) // a panic is recovered by the framework and attributed to the implementation
+	disarm(w)
 	if hasNonWhite(s) {
 		w.NonTrivial()
 	}
